@@ -119,6 +119,12 @@ pub fn cfg_of(c: &Case) -> Cfg {
         }
         // a mapping whose value equals its key: the way to exempt a hand-written type from the prefix
         5 => cfg.type_mappings.push(("User".into(), "User".into())),
+        // … by instances of containers that hold a generic user type with two arguments (typeshare prints ", " between them)
+        6 => {
+            cfg.type_mappings.push(("Vec<G<u32, String>>".into(), "PairList".into()));
+            cfg.type_mappings.push(("Vec<G<String, u32>>".into(), "OtherPairList".into()));
+            cfg.type_mappings.push(("Vec<G<String, User>>".into(), "UserPairList".into()));
+        }
         // … and by instances of maps, spelled the way typeshare prints them (no space after the comma)
         4 => {
             cfg.type_mappings.push(("HashMap<String,u32>".into(), "Counts".into()));
@@ -463,10 +469,10 @@ pub fn run(args: &[String]) -> i32 {
         let vdepth = if thorough { 2 } else { 1 };
         let (accs, stats) = explore(
             |ch| {
-                ch.choose("shape", 5);
+                ch.choose("shape", 6);
             },
             |ch, acc: &mut Acc| {
-                let shape = ch.choose("shape", 5);
+                let shape = ch.choose("shape", 6);
                 let key = match ch.choose("key", 3) {
                     0 => Ty::Prim("String"),
                     1 => Ty::Prim("u32"),
@@ -478,10 +484,11 @@ pub fn run(args: &[String]) -> i32 {
                     1 => Ty::Vec(Box::new(Ty::Map(Box::new(key), Box::new(a)))),
                     2 => Ty::Generic("G1".into(), vec![a]),
                     3 => Ty::Generic("G".into(), vec![a, key]),
+                    5 => Ty::Vec(Box::new(Ty::Generic("G".into(), vec![a, key]))),
                     _ => Ty::Option(Box::new(Ty::Generic("G".into(), vec![key, a]))),
                 };
-                let c = gen_tail(ch, ty, "maps-and-generics", &[0, 1, 2, 4, 5]);
-                if c.mapping == 4 && !matches!(c.lang, Lang::TypeScript | Lang::Go | Lang::Python) {
+                let c = gen_tail(ch, ty, "maps-and-generics", &[0, 1, 2, 4, 5, 6]);
+                if matches!(c.mapping, 4 | 6) && !matches!(c.lang, Lang::TypeScript | Lang::Go | Lang::Python) {
                     acc.out_of_scope += 1; // container mappings are only supported by TS/Go/Python
                     return;
                 }
@@ -492,7 +499,7 @@ pub fn run(args: &[String]) -> i32 {
             report::threads(),
             u64::MAX,
         );
-        merge(&mut rep, "maps_and_generics", accs, &stats, json!({"shapes": ["HashMap<K,V>", "Vec<HashMap<K,V>>", "G1<A>", "G<A,K>", "Option<G<K,A>>"], "keys": ["String", "u32", "User"], "argument_chain_constructors": vdepth, "mappings": ["none", "User->Mapped", "G->MappedG", "map instances: HashMap<String,u32>, HashMap<String,String>, HashMap<u32,Vec<u8>>, HashMap<String,User> (TS/Go/Python)", "User->User (identity: exempts the type from the prefix)"]}));
+        merge(&mut rep, "maps_and_generics", accs, &stats, json!({"shapes": ["HashMap<K,V>", "Vec<HashMap<K,V>>", "G1<A>", "G<A,K>", "Option<G<K,A>>", "Vec<G<A,K>>"], "keys": ["String", "u32", "User"], "argument_chain_constructors": vdepth, "mappings": ["none", "User->Mapped", "G->MappedG", "map instances: HashMap<String,u32>, HashMap<String,String>, HashMap<u32,Vec<u8>>, HashMap<String,User> (TS/Go/Python)", "User->User (identity: exempts the type from the prefix)", "instances holding a two-argument generic: Vec<G<u32, String>>, Vec<G<String, u32>>, Vec<G<String, User>> (TS/Go/Python)"]}));
     }
     // 3b. a mapped generic base swallows its arguments: whatever stands between the angle brackets, the output is the
     //     one of the same program with `u32` there (differential; no expected text written by hand)
